@@ -96,6 +96,12 @@ func PluginSchema(variant string) *schema.SchemaSchema {
 		steps["renamed"] = workStep("renamed", true, str())
 	case "grown":
 		steps["work"] = workStepGrown("work", true, str(), true)
+	case "patterned":
+		// the success output has a property of the type `pattern` (its typed form is a compiled expression, its serialized
+		// form the text)
+		st := workStep("work", true, str())
+		st.OutputsValue["success"].SchemaValue.Objects()["WorkSuccess"].PropertiesValue["pat"] = prop(schema.NewPatternSchema(), false)
+		steps["work"] = st
 	case "more-outputs":
 		// a later release that declares (and, with the outcome "undeclared", returns) an output the earlier one did not have
 		st := workStep("work", true, str())
@@ -306,6 +312,11 @@ func execute(p *conn, sc *Script, variant string, runID string, ws atp.WorkStart
 	switch outcome {
 	case "success":
 		outID, outData = "success", SuccessData(p.src, input)
+		if variant == "patterned" {
+			if m, ok := outData.(map[string]any); ok {
+				m["pat"] = "^a+[0-9]{2}$"
+			}
+		}
 		if variant == "grown" {
 			if m, ok := outData.(map[string]any); ok {
 				m["attempts"] = int64(3)
